@@ -7,7 +7,10 @@ Every line is `<op> k=v k=v …` with the fields
   sec=<hex|->            the reader's / writer's secret (`-` = NullSigner)
   dig=<md5|sha1|…>       the configured digest
   pk=<null|real>         NonPickler or a real pickler (whose verdicts are supplied on the line)
-  reg=<hex,hex,…|->      registered type tags (`bytes` = identity codec, every other tag = the box codec below)
+  reg=<e,e,…|->          the `register_type` calls made so far, OLDEST FIRST, each `e` = `<taghex>` or `<taghex>/<codec>`:
+                         the registry consulted by this call is `Registry.registerAll Registry.empty` of them (a later
+                         entry for the same tag replaces the earlier one).  Codec: tag `bytes` = identity codec; else
+                         `/0` (or nothing) = box codec, `/1` = plain codec, `/2` = tolerant codec (below)
   key=<hex>              key.encode()
   mac=<label>:<msghex>:<machex>|-     the one MAC the harness computed (with the real hmac) for the model's query
   v= / w= / dumps=       values:  i:<int> | b:<hex> | o:<id>:<taghex> | x:<taghex>:<payloadhex>
@@ -83,6 +86,41 @@ def boxCodec (tag : Bytes) : Codec Obj where
     | 0x2b :: r => some (.obj (.boxed tag r.reverse))
     | _ => none
 
+/-- second harness codec: `enc(v) = b"=" + v.payload`; the decoder raises `DecodeError` unless the payload starts
+with `=` (so it rejects what `boxCodec` wrote) -/
+def plainCodec (tag : Bytes) : Codec Obj where
+  enc := fun v => match v with
+    | .obj (.boxed _ p) => 0x3d :: p
+    | _ => []
+  dec := fun q => match q with
+    | 0x3d :: r => some (.obj (.boxed tag r))
+    | _ => none
+
+/-- third harness codec: writes like `plainCodec`, reads both formats -/
+def tolerantCodec (tag : Bytes) : Codec Obj where
+  enc := fun v => match v with
+    | .obj (.boxed _ p) => 0x3d :: p
+    | _ => []
+  dec := fun q => match q with
+    | 0x3d :: r => some (.obj (.boxed tag r))
+    | 0x2b :: r => some (.obj (.boxed tag r.reverse))
+    | _ => none
+
+/-- one entry of the `reg=` field -/
+def parseRegEntry? (e : String) : Option (Bytes × Codec Obj) :=
+  match e.splitOn "/" with
+  | [h] => do
+    let t ← hexToBytes? h
+    pure (t, if t = tagBytes then bytesCodec else boxCodec t)
+  | [h, k] => do
+    let t ← hexToBytes? h
+    if t = tagBytes then none
+    else if k = "0" then pure (t, boxCodec t)
+    else if k = "1" then pure (t, plainCodec t)
+    else if k = "2" then pure (t, tolerantCodec t)
+    else none
+  | _ => none
+
 abbrev Fields := List (String × String)
 
 def parseFields (ws : List String) : Fields :=
@@ -119,6 +157,8 @@ def noMac : Bytes := [0x00]
 
 structure Req where
   cfg : Cfg Obj
+  /-- the class-level registry at the time of the call: the fold of the registrations announced on the line -/
+  reg : Registry Obj
   /-- the same configuration whose MAC answers *every* query with the supplied value: if the two
   configurations disagree, the model asked for a MAC the driver did not announce -/
   cfgAny : Cfg Obj
@@ -132,7 +172,7 @@ def mkReq (f : Fields) : Option Req := do
     pure (some { secret := ← hexToBytes? sec, digest := dig })
   let pk ← f.get? "pk"
   let regS ← f.get? "reg"
-  let tags ← if regS = "-" then pure [] else Proto.allSome ((regS.splitOn ",").map hexToBytes?)
+  let regs ← if regS = "-" then pure [] else Proto.allSome ((regS.splitOn ",").map parseRegEntry?)
   let key ← hexToBytes? (← f.get? "key")
   let macE ← parseMac? ((f.get? "mac").getD "-")
   let dumps ← match f.get? "dumps" with
@@ -144,8 +184,7 @@ def mkReq (f : Fields) : Option Req := do
     if pk = "null" then pure Pickler.null
     else if pk = "real" then pure { dumps := fun v => dumps.getD v, loads := fun _ => loads }
     else none
-  let registry : Bytes → Option (Codec Obj) := fun t =>
-    if t ∈ tags then (if t = tagBytes then some bytesCodec else some (boxCodec t)) else none
+  let registry : Registry Obj := Registry.registerAll Registry.empty regs
   let typeName : Obj → Bytes := fun o => match o with
     | .opaque _ t => t
     | .boxed t _ => t
@@ -157,20 +196,20 @@ def mkReq (f : Fields) : Option Req := do
     match macE with
     | some e => e.mac
     | none => noMac
-  let cfg : Cfg Obj := { mac := mac, signer := signer, pickler := pickler, typeName := typeName, registry := registry }
-  pure { cfg := cfg, cfgAny := { cfg with mac := macAny }, key := key, f := f }
+  let cfg : Cfg Obj := { mac := mac, signer := signer, pickler := pickler, typeName := typeName }
+  pure { cfg := cfg, reg := registry, cfgAny := { cfg with mac := macAny }, key := key, f := f }
 
 def showQuery : Option (Digest × Bytes) → String
   | none => "q=-"
   | some (d, m) => s!"q={showDigest d}:{bytesToHex m}"
 
 /-- the MAC `encode` will ask for -/
-def encQuery (cfg : Cfg Obj) (key : Bytes) (v : Serial.Val Obj) : Option (Digest × Bytes) :=
+def encQuery (cfg : Cfg Obj) (reg : Registry Obj) (key : Bytes) (v : Serial.Val Obj) : Option (Digest × Bytes) :=
   match v, cfg.signer with
   | .int _, _ => none
   | _, none => none
   | v, some s =>
-    let payload := match customEncode cfg v with
+    let payload := match customEncode cfg reg v with
       | some b => Serial.Val.bytes b
       | none => cfg.pickler.dumps v
     match payload with
@@ -182,7 +221,7 @@ def decQuery (cfg : Cfg Obj) (key : Bytes) (w : Serial.Val Obj) (same : Bool) : 
   if same then none
   else match w, cfg.signer with
     | .bytes b, some s =>
-      if isDigits b then none
+      if isIntLit b then none
       else match splitFirst us b with
         | none => none
         | some (hdr, p) =>
@@ -217,11 +256,11 @@ def answer (op : String) (r : Req) : Option String := do
   match op with
   | "enc1" =>
     let v ← parseVal? (← r.f.get? "v")
-    pure (showQuery (encQuery r.cfg r.key v))
+    pure (showQuery (encQuery r.cfg r.reg r.key v))
   | "enc2" =>
     let v ← parseVal? (← r.f.get? "v")
-    let a := encode r.cfg r.key v
-    let b := encode r.cfgAny r.key v
+    let a := encode r.cfg r.reg r.key v
+    let b := encode r.cfgAny r.reg r.key v
     let miss := if a = b then 0 else 1
     pure (match a with
       | none => s!"stored=err miss={miss}"
@@ -232,15 +271,15 @@ def answer (op : String) (r : Req) : Option String := do
   | "dec2" =>
     let w ← parseVal? (← r.f.get? "w")
     let same ← parseSame? r.f
-    let a := preLoads r.cfg r.key w same
-    let b := preLoads r.cfgAny r.key w same
+    let a := preLoads r.cfg r.reg r.key w same
+    let b := preLoads r.cfgAny r.reg r.key w same
     let miss := if a = b then 0 else 1
     pure s!"pre={showPre a} miss={miss}"
   | "dec3" =>
     let w ← parseVal? (← r.f.get? "w")
     let same ← parseSame? r.f
-    let a := decode r.cfg r.key w same
-    let b := decode r.cfgAny r.key w same
+    let a := decode r.cfg r.reg r.key w same
+    let b := decode r.cfgAny r.reg r.key w same
     let miss := if a = b then 0 else 1
     pure s!"res={showRes a} miss={miss}"
   | _ => none
